@@ -84,6 +84,11 @@ type c16In struct {
 	Sigs  []string `json:"sigs,omitempty"` // INT | TERM
 	Gated bool     `json:"gated,omitempty"`
 	Note  string   `json:"note,omitempty"`
+	// race: Instance.Restart of handle H with Cfg is held inside its first callback of kind Gate
+	// (restart | startup | shutdown) while executeShutdownCallbacks runs to completion
+	H    int     `json:"h,omitempty"`
+	Cfg  *c16Cfg `json:"cfg,omitempty"`
+	Gate string  `json:"gate,omitempty"`
 }
 
 // ------------------------------------------------------------------ events
@@ -235,6 +240,7 @@ type c16World struct {
 	gateArmed atomic.Bool
 	gateUsed  atomic.Bool
 	gateWait  func()
+	gateKind  string // "" = shutdown
 }
 
 var (
@@ -449,7 +455,11 @@ func c16Register() {
 					add(c, func() error {
 						w := ctx.w
 						w.emit(c16Ev{T: "cb", K: kind, I: ctx.id, L: label})
-						if kind == "shutdown" && w.gateArmed.Load() && w.gateUsed.CompareAndSwap(false, true) {
+						gk := w.gateKind
+						if gk == "" {
+							gk = "shutdown"
+						}
+						if kind == gk && w.gateArmed.Load() && w.gateUsed.CompareAndSwap(false, true) {
 							w.gateWait()
 						}
 						if fail {
@@ -1259,8 +1269,117 @@ func c16RunConc(in *c16In) Result {
 		Sig: "conc", Nontrivial: len(ev) >= 4 && len(in.Stops) > 0, Direct: problem, Class: "conc:stops=" + strconv.Itoa(len(in.Stops))}
 }
 
+// ------------------------------------------------------------------ race cases
+// Instance.Restart is parked inside its first callback of the gate kind (no lock is held there);
+// the signal handler's work (executeShutdownCallbacks) runs to completion meanwhile; then the
+// Restart goes on.  One of the schedules of the small-step model (gate_run).
+func c16RunRace(in *c16In) Result {
+	c16Register()
+	w := c16NewWorld(nil)
+	casket.VerifC16ResetShutdownOnce()
+	recs, problem := w.runOps(in.Ops, nil)
+	for i := len(recs); i < len(in.Ops); i++ {
+		recs = append(recs, c16Rec{Op: in.Ops[i], Res: c16Res{T: "unit"}})
+	}
+	code := 0
+	w.gateKind = in.Gate
+	w.gateWait = func() {
+		done := make(chan int, 1)
+		go func() {
+			defer func() {
+				if p := recover(); p != nil {
+					done <- 99
+				}
+			}()
+			done <- casket.VerifC16ExecuteShutdownCallbacks("SIGTERM")
+		}()
+		select {
+		case code = <-done:
+		case <-time.After(5 * time.Second):
+			code = 98
+		}
+	}
+	m := w.mark()
+	w.gateArmed.Store(true)
+	res, p2 := w.doOp(c16Op{Op: "restart", H: in.H, Cfg: in.Cfg})
+	w.gateArmed.Store(false)
+	if problem == "" {
+		problem = p2
+	}
+	if code == 98 && problem == "" {
+		problem = "executeShutdownCallbacks did not return within 5 s while Restart was inside a callback"
+	}
+	w.settle()
+	ev := w.since(m)
+	w.cleanup()
+	w.gateKind = ""
+	var eh []string
+	for _, e := range ev {
+		eh = append(eh, c16EvHuman(e))
+	}
+	old := (*c16Cfg)(nil)
+	g := &c16GState{}
+	for _, o := range in.Ops {
+		g.apply(o)
+	}
+	if gi := g.find(in.H); gi != nil {
+		old = gi.cfg
+	}
+	sig := "race:" + in.Gate
+	if old != nil && in.Gate != "shutdown" && len(old.Shutdown) > 0 {
+		if ok, _ := c16PredictStart(in.Cfg, old); ok && !c16AnyFail(old.Restart) {
+			// the handler runs the old instance's shutdown callbacks, the reload runs them again
+			sig += ":old-shutdown-twice"
+		}
+	}
+	term := "(CRace " + c16RecsTerm(recs) + " " + strconv.Itoa(in.H) + " " + c16CfgTerm(in.Cfg) + " " + c16KindCtor[in.Gate] + " " +
+		c16EvsTerm(ev) + " " + c16ResTerm(res) + " " + strconv.Itoa(code) + ")"
+	return Result{Term: term, Obs: map[string]interface{}{"records": c16Human(recs), "gate": in.Gate, "during_restart": eh, "restart_ok": res.OK,
+		"exit": code, "problem": problem}, Sig: sig, Nontrivial: len(ev) >= 4 && w.gateUsed.Load(), Direct: problem, Class: sig}
+}
+
+func c16GenRace(r *Rand) *c16In {
+	g := &c16GState{}
+	var ops []c16Op
+	push := func(o c16Op) {
+		ops = append(ops, o)
+		g.apply(o)
+	}
+	mk := func(stage string) *c16Cfg {
+		c := c16GenCfg(r, stage)
+		if len(c.Shutdown) == 0 && r.Chance(80) {
+			c.Shutdown = []c16Cb{{ID: 0}}
+		}
+		return c
+	}
+	n := 1 + r.Intn(3)
+	for i := 0; i < n; i++ {
+		push(c16Op{Op: "start", Cfg: mk("none")})
+	}
+	if r.Chance(30) {
+		push(c16Op{Op: "restart", H: g.live[r.Intn(len(g.live))].id, Cfg: mk("none")})
+	}
+	if len(g.live) > 1 && r.Chance(25) {
+		push(c16Op{Op: "stopinst", H: g.live[r.Intn(len(g.live))].id})
+	}
+	gate := []string{"restart", "startup", "shutdown"}[r.Intn(3)]
+	stage := "none"
+	if r.Chance(30) {
+		stage = []string{"startup", "listen", "file", "make", "setup", "restartcb"}[r.Intn(6)]
+	}
+	h := g.live[r.Intn(len(g.live))].id
+	nc := mk(stage)
+	if gate == "startup" && len(nc.Startup) == 0 {
+		nc.Startup = []c16Cb{{ID: 0}, {ID: 1}}
+	}
+	return &c16In{Kind: "race", Ops: ops, H: h, Cfg: nc, Gate: gate}
+}
+
 func c16Run(in0 interface{}) Result {
 	in := in0.(*c16In)
+	if in.Kind == "race" {
+		return c16RunRace(in)
+	}
 	if in.Kind == "child" {
 		return c16RunChild(in)
 	}
@@ -1666,6 +1785,9 @@ func c16Gen(r *Rand, tier string) []interface{} {
 	for i := 0; i < nconc; i++ {
 		out = append(out, c16GenConc(r))
 	}
+	for i := 0; i < nconc*2; i++ {
+		out = append(out, c16GenRace(r))
+	}
 	return out
 }
 
@@ -1673,7 +1795,7 @@ func init() {
 	extraCommands["c16child"] = c16ChildMain
 	register(&Property{
 		ID: "C16", Imports: "V.Lib V.C16_Model", Judge: "judge", Shard: 40,
-		Rule: "histories over {Start, Restart (ok / failing at parse, setup, MakeServers, OnStartup, Listen, listener hand-over, OnRestart, old OnShutdown), Instance.Stop, Stop, ShutdownCallbacks, executeShutdownCallbacks, Wait probe} on a probe server type with recording callbacks and fake servers (graceful or not, with/without inheritable listeners): systematic scenarios per failure stage + random histories (<= 8 ops quick, <= 14 thorough); servers whose Stop returns a drain-timeout error, configurations whose set-up panics, old instances with nothing to hand over; child processes of the harness run a history, call casket.TrapSignals and receive SIGINT/SIGTERM sequences (later signals while the first shutdown callback is held); conc: >= 3 live instances, executeShutdownCallbacks with Instance.Stop of 1-2 of them launched inside the first shutdown callback; non-trivial = at least one successful start and two operations with events (hist) / at least two events after the signal (child) / at least four events during the shutdown (conc)",
+		Rule: "histories over {Start, Restart (ok / failing at parse, setup, MakeServers, OnStartup, Listen, listener hand-over, OnRestart, old OnShutdown), Instance.Stop, Stop, ShutdownCallbacks, executeShutdownCallbacks, Wait probe} on a probe server type with recording callbacks and fake servers (graceful or not, with/without inheritable listeners): systematic scenarios per failure stage + random histories (<= 8 ops quick, <= 14 thorough); servers whose Stop returns a drain-timeout error, configurations whose set-up panics, old instances with nothing to hand over; child processes of the harness run a history, call casket.TrapSignals and receive SIGINT/SIGTERM sequences (later signals while the first shutdown callback is held); conc: >= 3 live instances, executeShutdownCallbacks with Instance.Stop of 1-2 of them launched inside the first shutdown callback; race: Instance.Restart (ok / failing) of one of 1-3 live instances held inside its first OnRestart / new OnStartup / old OnShutdown callback while executeShutdownCallbacks runs to completion; non-trivial = at least one successful start and two operations with events (hist) / at least two events after the signal (child) / at least four events during the shutdown (conc) / the gate was reached and at least four events (race)",
 		Gen:    c16Gen,
 		Decode: func(raw json.RawMessage) (interface{}, error) { in := &c16In{}; return in, json.Unmarshal(raw, in) },
 		Run:    c16Run,
